@@ -307,6 +307,27 @@ def do_execute(world, child_id, by):
 
 def do_service(world, sid, by):
     sspec = world.services[sid]
+    if sspec.get("shipped") == "FactoryPool":
+        # a service cobald ships (trio flavour): what it calls - here its child factory - is part of its payload
+        from cobald.composite.factory import FactoryPool
+        from cobald.interfaces import Pool
+
+        class Leaf(Pool):
+            supply, utilisation, allocation = 0, 1.0, 1.0
+
+            def __init__(self):
+                self.demand = 1
+
+        def factory():
+            LOG("step", pid="svc:%s" % sid, gen=world.gen, n=-2, inside_section=world.overlap.get("trio", 0), **context_facts())
+            return Leaf()
+
+        LOG("call", op="service", pid="svc:%s" % sid, by=by, gen=world.gen)
+        inst = FactoryPool(factory=factory, interval=sspec.get("interval", 0.05))
+        inst.demand = sspec.get("demand", 3)
+        world.instances[sid] = inst
+        LOG("return", op="service", pid="svc:%s" % sid, by=by, gen=world.gen)
+        return
     cls = service_class(sspec["flavour"], sspec.get("shape", "plain"), sspec.get("base_flavour"))
     LOG("call", op="service", pid="svc:%s" % sid, by=by, gen=world.gen)
     inst = cls()
